@@ -5,9 +5,24 @@ Import ListNotations.
 Local Open Scope string_scope.
 Local Open Scope Z_scope.
 
+(* cook.go first flattens the result list into VALUES (resultValues) and then
+   works on that list only; so do the lemmas: [method_values] is the pipeline
+   on a list of values, [method_returns rs = method_values (values rs)] *)
+Definition method_values {V X : Type} (decode : string -> body X -> dec_out V X)
+           (body_verb : bool) (vs : list field) (o : outcome X)
+  : fatal + option (list (slot V X) * list bevent) :=
+  match cook_values vs with
+  | inl f => inl f
+  | inr c => inr (exec decode o (emit c body_verb) m0)
+  end.
+
+Lemma method_returns_values : forall V X (decode : string -> body X -> dec_out V X) bv rs o,
+  method_returns decode bv rs o = method_values decode bv (values rs) o.
+Proof. reflexivity. Qed.
+
 (* ------------------------------------------------------------------ *)
 (* the signature-level reading of a result list (specification side:    *)
-(* independent of cook_results and of the template)                     *)
+(* independent of cook_values and of the template)                     *)
 
 (* (printed type of the variable the body is decoded into, declared as pointer) *)
 Definition declared_result (results : list field) : option (string * bool) :=
@@ -22,7 +37,7 @@ Definition declared_result (results : list field) : option (string * bool) :=
 
 (* the shapes the generator lets through in result position *)
 Definition result_shape_ok (t : texpr) : bool :=
-  match t with TStar _ | TArray _ _ | TMap _ _ => true | _ => false end.
+  match t with TStar _ | TArray None _ | TMap _ _ => true | _ => false end.
 
 (* the signatures the generator accepts, stated on the signature *)
 Definition accepted (results : list field) : Prop :=
@@ -67,14 +82,14 @@ Proof.
 Qed.
 
 (* ------------------------------------------------------------------ *)
-(* cook_results                                                         *)
+(* cook_values                                                         *)
 
 Lemma get_return_type_name_ok : forall t rr,
   get_return_type_name t = inr rr <->
   result_shape_ok t = true /\
   rr = match t with TStar x => (print x, true) | _ => (print t, false) end.
 Proof.
-  intros t rr; destruct t; simpl; split.
+  intros t rr; destruct t as [n|pk n|x|[l|] e|k v|nd pr]; simpl; split.
   all: try (intros H; discriminate H).
   all: try (intros [H _]; discriminate H).
   all: try (intros H; inversion H; subst; split; reflexivity).
@@ -86,13 +101,13 @@ Proof. intros a b. destruct (String.eqb_spec a b); simpl; split; intros; try con
 
 (* exactly the accepted signatures get a client; what the template receives
    is the signature-level result description and arity - 1 nils *)
-Lemma cook_results_accepts : forall rs c,
-  cook_results rs = inr c <->
+Lemma cook_values_accepts : forall rs c,
+  cook_values rs = inr c <->
   accepted rs /\
   ck_nils c = (List.length rs - 1)%nat /\
   ck_result c = match declared_result rs with Some rr => rr | None => ("", false) end.
 Proof.
-  intros rs c. unfold cook_results, accepted, declared_result, nth_type.
+  intros rs c. unfold cook_values, accepted, declared_result, nth_type.
   destruct rs as [|a [|b [|d [|e rest]]]]; simpl.
   - split; [discriminate | tauto].
   - split; [discriminate | tauto].
@@ -110,7 +125,7 @@ Proof.
       * destruct (f_names a) as [|nm nms] eqn:Hn.
         -- destruct (get_return_type_name (f_type a)) as [f|rr] eqn:Hg.
            ++ split; [discriminate|]. intros ((_ & _ & _ & Hs) & _).
-              destruct (f_type a); simpl in *; discriminate.
+              destruct (f_type a) as [| | |[l|]| |]; simpl in *; discriminate.
            ++ apply get_return_type_name_ok in Hg as [Hs Hrr]. split.
               ** intros H; inversion H; subst; simpl. repeat split; auto.
                  destruct (f_type a); reflexivity.
@@ -122,43 +137,56 @@ Proof.
   - split; [discriminate | tauto].
 Qed.
 
-Lemma cook_results_fatal_or_cooked : forall rs,
-  (exists f, cook_results rs = inl f /\ ~ accepted rs) \/ (exists c, cook_results rs = inr c /\ accepted rs).
+Lemma cook_values_fatal_or_cooked : forall rs,
+  (exists f, cook_values rs = inl f /\ ~ accepted rs) \/ (exists c, cook_values rs = inr c /\ accepted rs).
 Proof.
-  intros rs. destruct (cook_results rs) as [f|c] eqn:H.
+  intros rs. destruct (cook_values rs) as [f|c] eqn:H.
   - left; exists f; split; auto. intros Ha.
-    assert (Hc : cook_results rs = inr {| ck_result := match declared_result rs with Some rr => rr | None => ("", false) end;
+    assert (Hc : cook_values rs = inr {| ck_result := match declared_result rs with Some rr => rr | None => ("", false) end;
                                           ck_nils := (List.length rs - 1)%nat |}).
-    { apply cook_results_accepts; simpl; auto. }
+    { apply cook_values_accepts; simpl; auto. }
     congruence.
-  - right; exists c; split; auto. apply cook_results_accepts in H; tauto.
+  - right; exists c; split; auto. apply cook_values_accepts in H; tauto.
 Qed.
 
 (* why shoot refuses a signature: each fatal message characterised *)
-Lemma cook_results_too_few : forall rs, (List.length rs < 2)%nat -> cook_results rs = inl FTooFew.
-Proof. intros rs H. unfold cook_results. destruct (Nat.ltb_spec (List.length rs) 2); [reflexivity | lia]. Qed.
+Lemma cook_values_too_few : forall rs, (List.length rs < 2)%nat -> cook_values rs = inl FTooFew.
+Proof. intros rs H. unfold cook_values. destruct (Nat.ltb_spec (List.length rs) 2); [reflexivity | lia]. Qed.
 
-Lemma cook_results_too_many : forall rs, (3 < List.length rs)%nat -> cook_results rs = inl FTooMany.
+Lemma cook_values_too_many : forall rs, (3 < List.length rs)%nat -> cook_values rs = inl FTooMany.
 Proof.
-  intros rs H. unfold cook_results.
+  intros rs H. unfold cook_values.
   destruct (Nat.ltb_spec (List.length rs) 2); [lia|].
   destruct (Nat.ltb_spec 3 (List.length rs)); [reflexivity | lia].
 Qed.
 
-Lemma cook_results_unsupported : forall r a b,
+Definition is_array (t : texpr) : bool :=
+  match t with TArray (Some _) _ => true | _ => false end.
+
+Lemma cook_values_unsupported : forall r a b,
   print (f_type a) = "*http.Response" -> print (f_type b) = "error" -> f_names r = [] ->
-  result_shape_ok (f_type r) = false ->
-  cook_results [r; a; b] = inl (FUnsupported (node_name (f_type r))).
+  result_shape_ok (f_type r) = false -> is_array (f_type r) = false ->
+  cook_values [r; a; b] = inl (FUnsupported (node_name (f_type r))).
 Proof.
-  intros r a b Ha Hb Hn Hs. unfold cook_results, nth_type; simpl.
-  rewrite Ha, Hb, Hn; simpl. destruct (f_type r); simpl in *; try discriminate; reflexivity.
+  intros r a b Ha Hb Hn Hs Har. unfold cook_values, nth_type; simpl.
+  rewrite Ha, Hb, Hn; simpl. destruct (f_type r) as [| | |[l|]| |]; simpl in *; try discriminate; reflexivity.
 Qed.
 
-Lemma cook_results_named : forall r a b,
-  print (f_type a) = "*http.Response" -> print (f_type b) = "error" -> f_names r <> [] ->
-  cook_results [r; a; b] = inl FNamed.
+(* an array result is refused: nil, returned by every error exit, is not a value of [n]T *)
+Lemma cook_values_array : forall r a b,
+  print (f_type a) = "*http.Response" -> print (f_type b) = "error" -> f_names r = [] ->
+  is_array (f_type r) = true ->
+  cook_values [r; a; b] = inl (FArray (print (f_type r))).
 Proof.
-  intros r a b Ha Hb Hn. unfold cook_results, nth_type; simpl.
+  intros r a b Ha Hb Hn Har. unfold cook_values, nth_type; simpl.
+  rewrite Ha, Hb, Hn; simpl. destruct (f_type r) as [| | |[l|]| |]; simpl in *; try discriminate; reflexivity.
+Qed.
+
+Lemma cook_values_named : forall r a b,
+  print (f_type a) = "*http.Response" -> print (f_type b) = "error" -> f_names r <> [] ->
+  cook_values [r; a; b] = inl FNamed.
+Proof.
+  intros r a b Ha Hb Hn. unfold cook_values, nth_type; simpl.
   rewrite Ha, Hb; simpl. destruct (f_names r); [contradiction | reflexivity].
 Qed.
 
@@ -443,15 +471,15 @@ Qed.
 
 End Accepted.
 
-(* the literal pipeline (cook_results, the rendered statements, their
+(* the literal pipeline (cook_values, the rendered statements, their
    execution) refines the declarative account *)
-Lemma method_returns_refines_spec : forall bv rs o,
+Lemma method_values_refines_spec : forall bv rs o,
   wf_results rs = true -> accepted rs -> scenario_ok bv o = true ->
-  method_returns decode bv rs o = inr (Some (spec_returns rs o, spec_events rs o)).
+  method_values decode bv rs o = inr (Some (spec_returns rs o, spec_events rs o)).
 Proof.
-  intros bv rs o Hwf Hacc Hsc. unfold method_returns.
-  destruct (cook_results_fatal_or_cooked rs) as [(f & _ & Hn)|(c & Hc & _)]; [contradiction|].
-  rewrite Hc. apply cook_results_accepts in Hc as (_ & Hnils & Hres). do 2 f_equal.
+  intros bv rs o Hwf Hacc Hsc. unfold method_values.
+  destruct (cook_values_fatal_or_cooked rs) as [(f & _ & Hn)|(c & Hc & _)]; [contradiction|].
+  rewrite Hc. apply cook_values_accepts in Hc as (_ & Hnils & Hres). do 2 f_equal.
   destruct c as [[cty cptr] cn]; simpl in Hnils, Hres; subst cn.
   unfold emit, errret; cbn [ck_result ck_nils].
   destruct (declared_result rs) as [[ty p]|] eqn:Hd.
@@ -485,11 +513,11 @@ Proof.
 Qed.
 
 (* a rejected signature yields no method at all *)
-Lemma method_returns_rejected : forall bv rs o,
-  ~ accepted rs -> exists f, method_returns decode bv rs o = inl f.
+Lemma method_values_rejected : forall bv rs o,
+  ~ accepted rs -> exists f, method_values decode bv rs o = inl f.
 Proof.
-  intros bv rs o Hn. unfold method_returns.
-  destruct (cook_results_fatal_or_cooked rs) as [(f & Hf & _)|(c & _ & Ha)]; [|contradiction].
+  intros bv rs o Hn. unfold method_values.
+  destruct (cook_values_fatal_or_cooked rs) as [(f & Hf & _)|(c & _ & Ha)]; [|contradiction].
   exists f. rewrite Hf. reflexivity.
 Qed.
 
@@ -527,16 +555,9 @@ Definition result_type_nilable (rs : list field) : bool :=
   | _ => true
   end.
 
-Definition no_array_result (rs : list field) : bool :=
-  match rs with
-  | [r; _; _] => match f_type r with TArray (Some _) _ => false | _ => true end
-  | _ => true
-  end.
-
-Lemma accepted_nilable : forall rs,
-  accepted rs -> no_array_result rs = true -> result_type_nilable rs = true.
+Lemma accepted_nilable : forall rs, accepted rs -> result_type_nilable rs = true.
 Proof.
-  intros rs Ha Hn. destruct rs as [|r [|a [|b [|? ?]]]]; simpl in *; try reflexivity.
+  intros rs Ha. destruct rs as [|r [|a [|b [|? ?]]]]; simpl in *; try reflexivity.
   destruct Ha as (_ & _ & _ & Hs). destruct (f_type r) as [| | |[l|]| |]; simpl in *; try discriminate; reflexivity.
 Qed.
 
@@ -736,28 +757,28 @@ Lemma unsupported_text_injective : forall s s',
 Proof. intros s s' H. apply append_inj_prefix in H. apply dec_injective; assumption. Qed.
 
 (* ------------------------------------------------------------------ *)
-(* the same facts, stated on the literal pipeline [method_returns]      *)
-(* (cook_results + the semantics of the template's tail)                *)
+(* the same facts, stated on the literal pipeline [method_values]      *)
+(* (cook_values + the semantics of the template's tail)                *)
 
 Section Literal.
 Variable V X : Type.
 Variable decode : string -> body X -> dec_out V X.
 
-Lemma method_returns_inv : forall bv rs o slots ev,
+Lemma method_values_inv : forall bv rs o slots ev,
   wf_results rs = true ->
-  method_returns decode bv rs o = inr (Some (slots, ev)) ->
+  method_values decode bv rs o = inr (Some (slots, ev)) ->
   accepted rs /\ scenario_ok bv o = true /\
   slots = spec_returns V X decode rs o /\ ev = spec_events X rs o.
 Proof.
   intros bv rs o slots ev Hwf H.
   assert (Hacc : accepted rs).
-  { unfold method_returns in H. destruct (cook_results rs) as [f|c] eqn:Hc; [discriminate|].
-    apply cook_results_accepts in Hc; tauto. }
+  { unfold method_values in H. destruct (cook_values rs) as [f|c] eqn:Hc; [discriminate|].
+    apply cook_values_accepts in Hc; tauto. }
   destruct (scenario_ok bv o) eqn:Hsc.
-  - rewrite (method_returns_refines_spec V X decode bv rs o Hwf Hacc Hsc) in H. inversion H; auto.
+  - rewrite (method_values_refines_spec V X decode bv rs o Hwf Hacc Hsc) in H. inversion H; auto.
   - (* the failing call is not part of the method: nothing is returned *)
     exfalso. destruct o as [[] x|r]; try discriminate Hsc. destruct bv; [discriminate Hsc|].
-    unfold method_returns in H. destruct (cook_results rs) as [f|c]; [discriminate|].
+    unfold method_values in H. destruct (cook_values rs) as [f|c]; [discriminate|].
     inversion H as [H1]. unfold emit in H1. destruct (ck_result c) as [ty p].
     cbn in H1. destruct (String.eqb ty ""); discriminate H1.
 Qed.
@@ -765,33 +786,33 @@ Qed.
 (* a client method exists exactly for the accepted signatures *)
 Lemma mr_exists_iff : forall bv rs o,
   wf_results rs = true -> scenario_ok bv o = true ->
-  ((exists res, method_returns decode bv rs o = inr (Some res)) <-> accepted rs).
+  ((exists res, method_values decode bv rs o = inr (Some res)) <-> accepted rs).
 Proof.
   intros bv rs o Hwf Hsc. split.
-  - intros ([slots ev] & H). apply method_returns_inv in H; tauto.
-  - intros Hacc. eexists. apply method_returns_refines_spec; assumption.
+  - intros ([slots ev] & H). apply method_values_inv in H; tauto.
+  - intros Hacc. eexists. apply method_values_refines_spec; assumption.
 Qed.
 
 (* a json.Marshal failure cannot happen in a method that sends no body *)
 Lemma mr_impossible_scenario : forall rs x,
   wf_results rs = true -> accepted rs ->
-  method_returns decode false rs (OFail StMarshal x) = inr None.
+  method_values decode false rs (OFail StMarshal x) = inr None.
 Proof.
-  intros rs x Hwf Hacc. unfold method_returns.
-  destruct (cook_results_fatal_or_cooked rs) as [(f & _ & Hn)|(c & Hc & _)]; [contradiction|].
+  intros rs x Hwf Hacc. unfold method_values.
+  destruct (cook_values_fatal_or_cooked rs) as [(f & _ & Hn)|(c & Hc & _)]; [contradiction|].
   rewrite Hc. unfold emit. destruct (ck_result c) as [ty p]. cbn. destruct (String.eqb ty ""); reflexivity.
 Qed.
 
 Lemma mr_view : forall bv rs o slots ev,
-  wf_results rs = true -> method_returns decode bv rs o = inr (Some (slots, ev)) ->
+  wf_results rs = true -> method_values decode bv rs o = inr (Some (slots, ev)) ->
   exists rv, view slots = Some rv /\ (rv_result rv = None <-> declared_result rs = None).
 Proof.
-  intros bv rs o slots ev Hwf H. apply method_returns_inv in H as (Hacc & _ & -> & _); auto.
+  intros bv rs o slots ev Hwf H. apply method_values_inv in H as (Hacc & _ & -> & _); auto.
   apply returns_view; assumption.
 Qed.
 
 Lemma mr_nil_error_iff : forall bv rs o slots ev rv,
-  wf_results rs = true -> method_returns decode bv rs o = inr (Some (slots, ev)) -> view slots = Some rv ->
+  wf_results rs = true -> method_values decode bv rs o = inr (Some (slots, ev)) -> view slots = Some rv ->
   (rv_err rv = SNil <->
    exists r, o = OResp r /\ 200 <= r_status r < 300 /\
      match declared_result rs with
@@ -799,39 +820,39 @@ Lemma mr_nil_error_iff : forall bv rs o slots ev rv,
      | Some (ty, _) => forall x, snd (decode ty (r_body r)) <> Some (DOther x)
      end).
 Proof.
-  intros bv rs o slots ev rv Hwf H Hv. apply method_returns_inv in H as (Hacc & _ & -> & _); auto.
+  intros bv rs o slots ev rv Hwf H Hv. apply method_values_inv in H as (Hacc & _ & -> & _); auto.
   apply nil_error_iff; assumption.
 Qed.
 
 Lemma mr_client_error : forall bv rs r slots ev rv,
-  wf_results rs = true -> method_returns decode bv rs (OResp r) = inr (Some (slots, ev)) -> view slots = Some rv ->
+  wf_results rs = true -> method_values decode bv rs (OResp r) = inr (Some (slots, ev)) -> view slots = Some rv ->
   400 <= r_status r < 500 ->
   rv_err rv = SErr (EText ("client error " ++ dec (r_status r) ++ ": " ++ b_data (r_body r))) /\
   rv_resp rv = SResp r /\ (rv_result rv = None \/ rv_result rv = Some SNil).
 Proof.
-  intros bv rs r slots ev rv Hwf H Hv Hs. apply method_returns_inv in H as (Hacc & _ & -> & _); auto.
+  intros bv rs r slots ev rv Hwf H Hv Hs. apply method_values_inv in H as (Hacc & _ & -> & _); auto.
   eapply status_error_returned; eauto.
   unfold status_error. apply class_of_client in Hs. rewrite Hs. reflexivity.
 Qed.
 
 Lemma mr_server_error : forall bv rs r slots ev rv,
-  wf_results rs = true -> method_returns decode bv rs (OResp r) = inr (Some (slots, ev)) -> view slots = Some rv ->
+  wf_results rs = true -> method_values decode bv rs (OResp r) = inr (Some (slots, ev)) -> view slots = Some rv ->
   500 <= r_status r ->
   rv_err rv = SErr (EText ("server error " ++ dec (r_status r) ++ ": " ++ b_data (r_body r))) /\
   rv_resp rv = SResp r /\ (rv_result rv = None \/ rv_result rv = Some SNil).
 Proof.
-  intros bv rs r slots ev rv Hwf H Hv Hs. apply method_returns_inv in H as (Hacc & _ & -> & _); auto.
+  intros bv rs r slots ev rv Hwf H Hv Hs. apply method_values_inv in H as (Hacc & _ & -> & _); auto.
   eapply status_error_returned; eauto.
   unfold status_error. apply class_of_server in Hs. rewrite Hs. reflexivity.
 Qed.
 
 Lemma mr_unsupported : forall bv rs r slots ev rv,
-  wf_results rs = true -> method_returns decode bv rs (OResp r) = inr (Some (slots, ev)) -> view slots = Some rv ->
+  wf_results rs = true -> method_values decode bv rs (OResp r) = inr (Some (slots, ev)) -> view slots = Some rv ->
   r_status r < 200 \/ 300 <= r_status r < 400 ->
   rv_err rv = SErr (EText ("not supported error " ++ dec (r_status r))) /\
   rv_resp rv = SResp r /\ (rv_result rv = None \/ rv_result rv = Some SNil).
 Proof.
-  intros bv rs r slots ev rv Hwf H Hv Hs. apply method_returns_inv in H as (Hacc & _ & -> & _); auto.
+  intros bv rs r slots ev rv Hwf H Hv Hs. apply method_values_inv in H as (Hacc & _ & -> & _); auto.
   eapply status_error_returned; eauto.
   unfold status_error. apply class_of_unsupported in Hs. rewrite Hs. reflexivity.
 Qed.
@@ -845,56 +866,56 @@ Lemma status_classes_partition : forall s : Z,
 Proof. intros s. lia. Qed.
 
 Lemma mr_failure : forall bv rs st x slots ev,
-  wf_results rs = true -> method_returns decode bv rs (OFail st x) = inr (Some (slots, ev)) ->
+  wf_results rs = true -> method_values decode bv rs (OFail st x) = inr (Some (slots, ev)) ->
   slots = (repeat SNil (List.length rs - 1) ++ [SErr (EForeign x)])%list /\ ev = [] /\
   forall rv, view slots = Some rv ->
     rv_err rv = SErr (EForeign x) /\ rv_resp rv = SNil /\ (rv_result rv = None \/ rv_result rv = Some SNil).
 Proof.
-  intros bv rs st x slots ev Hwf H. apply method_returns_inv in H as (Hacc & _ & -> & ->); auto.
+  intros bv rs st x slots ev Hwf H. apply method_values_inv in H as (Hacc & _ & -> & ->); auto.
   split; [reflexivity|]. split; [reflexivity|]. intros rv Hv.
   eapply fail_view; eauto.
 Qed.
 
 Lemma mr_response_always : forall bv rs r slots ev rv,
-  wf_results rs = true -> method_returns decode bv rs (OResp r) = inr (Some (slots, ev)) -> view slots = Some rv ->
+  wf_results rs = true -> method_values decode bv rs (OResp r) = inr (Some (slots, ev)) -> view slots = Some rv ->
   rv_resp rv = SResp r.
 Proof.
-  intros bv rs r slots ev rv Hwf H Hv. apply method_returns_inv in H as (Hacc & _ & -> & _); auto.
+  intros bv rs r slots ev rv Hwf H Hv. apply method_values_inv in H as (Hacc & _ & -> & _); auto.
   eapply response_always_returned; eauto.
 Qed.
 
 Lemma mr_error_nil_result : forall bv rs o slots ev rv,
-  wf_results rs = true -> method_returns decode bv rs o = inr (Some (slots, ev)) -> view slots = Some rv ->
+  wf_results rs = true -> method_values decode bv rs o = inr (Some (slots, ev)) -> view slots = Some rv ->
   rv_err rv <> SNil -> rv_result rv = None \/ rv_result rv = Some SNil.
 Proof.
-  intros bv rs o slots ev rv Hwf H Hv Hne. apply method_returns_inv in H as (Hacc & _ & -> & _); auto.
+  intros bv rs o slots ev rv Hwf H Hv Hne. apply method_values_inv in H as (Hacc & _ & -> & _); auto.
   eapply error_means_nil_result; eauto.
 Qed.
 
 Lemma mr_success : forall bv rs r ty p v de slots ev,
-  wf_results rs = true -> method_returns decode bv rs (OResp r) = inr (Some (slots, ev)) ->
+  wf_results rs = true -> method_values decode bv rs (OResp r) = inr (Some (slots, ev)) ->
   200 <= r_status r < 300 -> declared_result rs = Some (ty, p) ->
   decode ty (r_body r) = (v, de) -> (forall x, de <> Some (DOther x)) ->
   slots = [if p then SAddr v else SVal v; SResp r; SNil].
 Proof.
   intros bv rs r ty p v de slots ev Hwf H Hs Hd Hdec Hok.
-  apply method_returns_inv in H as (Hacc & _ & -> & _); auto.
+  apply method_values_inv in H as (Hacc & _ & -> & _); auto.
   eapply success_returns; eauto.
 Qed.
 
 Lemma mr_success_no_result : forall bv rs r slots ev,
-  wf_results rs = true -> method_returns decode bv rs (OResp r) = inr (Some (slots, ev)) ->
+  wf_results rs = true -> method_values decode bv rs (OResp r) = inr (Some (slots, ev)) ->
   200 <= r_status r < 300 -> declared_result rs = None ->
   slots = [SResp r; SNil].
 Proof.
-  intros bv rs r slots ev Hwf H Hs Hd. apply method_returns_inv in H as (Hacc & _ & -> & _); auto.
+  intros bv rs r slots ev Hwf H Hs Hd. apply method_values_inv in H as (Hacc & _ & -> & _); auto.
   apply success_no_result; assumption.
 Qed.
 
 (* an empty body yields the zero value, given json's behaviour on an empty stream *)
 Lemma mr_empty_body : forall (zero : string -> V) bv rs r ty p slots ev,
   (forall t, decode t {| b_data := ""; b_fault := None |} = (zero t, Some DEof)) ->
-  wf_results rs = true -> method_returns decode bv rs (OResp r) = inr (Some (slots, ev)) ->
+  wf_results rs = true -> method_values decode bv rs (OResp r) = inr (Some (slots, ev)) ->
   200 <= r_status r < 300 -> declared_result rs = Some (ty, p) ->
   r_body r = {| b_data := ""; b_fault := None |} ->
   slots = [if p then SAddr (zero ty) else SVal (zero ty); SResp r; SNil].
@@ -906,68 +927,341 @@ Proof.
 Qed.
 
 Lemma mr_decode_error : forall bv rs r ty p v x slots ev,
-  wf_results rs = true -> method_returns decode bv rs (OResp r) = inr (Some (slots, ev)) ->
+  wf_results rs = true -> method_values decode bv rs (OResp r) = inr (Some (slots, ev)) ->
   200 <= r_status r < 300 -> declared_result rs = Some (ty, p) ->
   decode ty (r_body r) = (v, Some (DOther x)) ->
   slots = [SNil; SResp r; SErr (EForeign x)].
 Proof.
   intros bv rs r ty p v x slots ev Hwf H Hs Hd Hdec.
-  apply method_returns_inv in H as (Hacc & _ & -> & _); auto.
+  apply method_values_inv in H as (Hacc & _ & -> & _); auto.
   eapply decode_error_returns; eauto.
 Qed.
 
 Lemma mr_arity : forall bv rs o slots ev,
-  wf_results rs = true -> single_names rs = true ->
-  method_returns decode bv rs o = inr (Some (slots, ev)) ->
-  List.length slots = declared_arity rs.
+  wf_results rs = true ->
+  method_values decode bv rs o = inr (Some (slots, ev)) ->
+  List.length slots = List.length rs.
 Proof.
-  intros bv rs o slots ev Hwf Hsn H. apply method_returns_inv in H as (Hacc & _ & -> & _); auto.
-  rewrite declared_arity_single by assumption. apply returns_length; assumption.
+  intros bv rs o slots ev Hwf H. apply method_values_inv in H as (Hacc & _ & -> & _); auto.
+  apply returns_length; assumption.
 Qed.
 
 Lemma mr_body_closed_once : forall bv rs r slots ev,
-  wf_results rs = true -> method_returns decode bv rs (OResp r) = inr (Some (slots, ev)) ->
+  wf_results rs = true -> method_values decode bv rs (OResp r) = inr (Some (slots, ev)) ->
   exists pre, ev = (pre ++ [BClose])%list /\ ~ In BClose pre.
 Proof.
-  intros bv rs r slots ev Hwf H. apply method_returns_inv in H as (_ & _ & _ & ->); auto.
+  intros bv rs r slots ev Hwf H. apply method_values_inv in H as (_ & _ & _ & ->); auto.
   apply events_close_last.
 Qed.
 
-Lemma mr_rejected : forall bv rs o, ~ accepted rs -> exists f, method_returns decode bv rs o = inl f.
-Proof. intros. apply method_returns_rejected; assumption. Qed.
+Lemma mr_rejected : forall bv rs o, ~ accepted rs -> exists f, method_values decode bv rs o = inl f.
+Proof. intros. apply method_values_rejected; assumption. Qed.
 
 End Literal.
 
 (* ------------------------------------------------------------------ *)
-(* witnesses: signatures the generator accepts but cannot serve          *)
+(* from values back to the declared result list                         *)
+
+Lemma values_cons : forall f rs, values (f :: rs) = (values [f] ++ values rs)%list.
+Proof. intros. unfold values; simpl. rewrite app_nil_r. reflexivity. Qed.
+
+Lemma values_one : forall f,
+  values [f] = match f_names f with
+               | [] => [f]
+               | ns => map (fun n => {| f_names := [n]; f_type := f_type f |}) ns
+               end.
+Proof. intros f. unfold values; simpl. rewrite app_nil_r. reflexivity. Qed.
+
+Lemma wf_values : forall rs, wf_results (values rs) = wf_results rs.
+Proof.
+  induction rs as [|f rs IH]; [reflexivity|].
+  rewrite values_cons. unfold wf_results in *. rewrite forallb_app, IH, values_one.
+  change (forallb (fun f0 : field => wf_texpr (f_type f0)) (f :: rs))
+    with (wf_texpr (f_type f) && forallb (fun f0 : field => wf_texpr (f_type f0)) rs).
+  f_equal. destruct (f_names f) as [|n ns]; simpl.
+  - apply andb_true_r.
+  - destruct (wf_texpr (f_type f)) eqn:Hw; simpl; [|reflexivity].
+    induction ns as [|m ns IHn]; simpl; [reflexivity | rewrite Hw; exact IHn].
+Qed.
+
+(* the number of values a signature declares is the length of its value list *)
+Lemma declared_arity_values : forall rs, declared_arity rs = List.length (values rs).
+Proof.
+  induction rs as [|f rs IH]; [reflexivity|].
+  rewrite values_cons, app_length, <- IH, values_one.
+  change (declared_arity (f :: rs))
+    with ((match f_names f with [] => 1 | ns => List.length ns end + declared_arity rs)%nat).
+  f_equal. destruct (f_names f) as [|n ns]; [reflexivity|]. rewrite map_length. reflexivity.
+Qed.
+
+(* a list without multi-name fields is its own value list, up to nothing at all
+   for unnamed fields and a rebuilt record for single-name ones *)
+Lemma values_single : forall rs, single_names rs = true -> values rs = rs.
+Proof.
+  induction rs as [|f rs IH]; [reflexivity|]. intros H. simpl in H.
+  apply andb_true_iff in H as [Hf Hr]. rewrite values_cons, (IH Hr), values_one.
+  destruct f as [[|n [|m ns]] t]; simpl in *; try reflexivity. discriminate.
+Qed.
+
+(* a signature with a multi-name field is never accepted: its values are judged
+   one by one, and two values of one field have the same type *)
+Lemma multi_name_never_accepted : forall rs,
+  single_names rs = false -> ~ accepted (values rs).
+Proof.
+  intros rs Hsn Hacc.
+  (* find the first multi-name field *)
+  induction rs as [|f rs IH]; [discriminate|].
+  simpl in Hsn. rewrite values_cons in Hacc.
+  destruct (f_names f) as [|n [|m ns]] eqn:Hn.
+  - (* f unnamed: one value *)
+    simpl in Hsn. assert (Hv : values [f] = [f]) by (unfold values; simpl; rewrite Hn; reflexivity).
+    rewrite Hv in Hacc. simpl in Hacc.
+    (* the rest contains the multi-name field: its values are named and pairwise of one type *)
+    clear IH Hv.
+    assert (Hrest : exists g pre post n1 n2 more, rs = (pre ++ g :: post)%list /\ f_names g = n1 :: n2 :: more).
+    { clear Hacc. induction rs as [|g rs IHr]; [discriminate|]. simpl in Hsn.
+      destruct (f_names g) as [|n1 [|n2 more]] eqn:Hg.
+      - destruct (IHr Hsn) as (g' & pre & post & a1 & a2 & mo & -> & Hg'). exists g', (g :: pre), post, a1, a2, mo. auto.
+      - destruct (IHr Hsn) as (g' & pre & post & a1 & a2 & mo & -> & Hg'). exists g', (g :: pre), post, a1, a2, mo. auto.
+      - exists g, [], rs, n1, n2, more. auto. }
+    destruct Hrest as (g & pre & post & n1 & n2 & more & -> & Hg).
+    (* values rs has at most 2 elements (accepted lists have 2 or 3 values), and g alone gives 2 of one type *)
+    assert (Hvals : values (pre ++ g :: post) =
+                    (values pre ++ {| f_names := [n1]; f_type := f_type g |} :: {| f_names := [n2]; f_type := f_type g |}
+                       :: (map (fun n => {| f_names := [n]; f_type := f_type g |}) more ++ values post))%list).
+    { unfold values. rewrite flat_map_app. simpl. rewrite Hg. simpl. reflexivity. }
+    rewrite Hvals in Hacc.
+    destruct (values pre) as [|p1 [|p2 ps]]; simpl in Hacc.
+    + destruct (map _ more ++ values post)%list as [|q qs]; simpl in Hacc.
+      * destruct Hacc as (Ha & Hb & _). simpl in Ha, Hb. rewrite Ha in Hb. discriminate.
+      * contradiction.
+    + destruct (map _ more ++ values post)%list; simpl in Hacc; contradiction.
+    + destruct ps; simpl in Hacc; contradiction.
+  - (* f has exactly one name *)
+    simpl in Hsn. assert (Hv : values [f] = [{| f_names := [n]; f_type := f_type f |}])
+      by (unfold values; simpl; rewrite Hn; reflexivity).
+    rewrite Hv in Hacc. simpl in Hacc.
+    (* the first value is named: only a two-value list could be accepted, and then rs = one single value *)
+    destruct (values rs) as [|v1 [|v2 [|v3 vs]]] eqn:Hvs; simpl in Hacc; try contradiction.
+    + (* two values: rs yields exactly one value, so rs has no multi-name field *)
+      exfalso. clear Hacc IH Hv.
+      assert (Hlen : List.length (values rs) = 1%nat) by (rewrite Hvs; reflexivity).
+      rewrite <- declared_arity_values in Hlen. clear Hvs.
+      induction rs as [|g rs IHr]; [discriminate|]. simpl in Hsn, Hlen.
+      destruct (f_names g) as [|a1 [|a2 more]]; simpl in *.
+      * assert (declared_arity rs = 0%nat) by lia. destruct rs as [|h rs']; [discriminate|].
+        simpl in H. destruct (f_names h); simpl in H; lia.
+      * assert (declared_arity rs = 0%nat) by lia. destruct rs as [|h rs']; [discriminate|].
+        simpl in H. destruct (f_names h); simpl in H; lia.
+      * lia.
+    + (* three values, the first one named: refused *)
+      destruct Hacc as (_ & _ & Hnm & _). discriminate.
+  - (* f itself has two or more names *)
+    assert (Hv : values [f] = ({| f_names := [n]; f_type := f_type f |} :: {| f_names := [m]; f_type := f_type f |}
+                                :: map (fun k => {| f_names := [k]; f_type := f_type f |}) ns)%list)
+      by (unfold values; simpl; rewrite Hn; simpl; rewrite app_nil_r; reflexivity).
+    rewrite Hv in Hacc. simpl in Hacc.
+    destruct (map _ ns ++ values rs)%list as [|q [|q2 qs]]; simpl in Hacc.
+    + destruct Hacc as (Ha & Hb). simpl in Ha, Hb. rewrite Ha in Hb. discriminate.
+    + destruct Hacc as (_ & _ & Hnm & _). discriminate.
+    + contradiction.
+Qed.
+
+(* ------------------------------------------------------------------ *)
+(* the facts on the declared result list [rs] (fields as go/ast has      *)
+(* them), through rs -> values rs                                       *)
+
+Definition sig_accepted (rs : list field) : Prop := accepted (values rs).
+Definition sig_result (rs : list field) : option (string * bool) := declared_result (values rs).
+
+Section Signature.
+Variable V X : Type.
+Variable decode : string -> body X -> dec_out V X.
+
+Ltac to_values H := rewrite method_returns_values in H;
+  match goal with Hw : wf_results _ = true |- _ => rewrite <- wf_values in Hw end.
+
+Lemma sg_exists_iff : forall bv rs o,
+  wf_results rs = true -> scenario_ok bv o = true ->
+  ((exists res, method_returns decode bv rs o = inr (Some res)) <-> sig_accepted rs).
+Proof.
+  intros bv rs o Hwf Hsc. rewrite method_returns_values. unfold sig_accepted.
+  rewrite <- wf_values in Hwf. exact (mr_exists_iff V X decode bv (values rs) o Hwf Hsc).
+Qed.
+
+Lemma sg_rejected : forall bv rs o, ~ sig_accepted rs -> exists f, method_returns decode bv rs o = inl f.
+Proof. intros bv rs o H. rewrite method_returns_values. apply mr_rejected; assumption. Qed.
+
+Lemma sg_impossible_scenario : forall rs x,
+  wf_results rs = true -> sig_accepted rs ->
+  method_returns decode false rs (OFail StMarshal x) = inr None.
+Proof.
+  intros rs x Hwf Ha. rewrite method_returns_values. rewrite <- wf_values in Hwf.
+  exact (mr_impossible_scenario V X decode (values rs) x Hwf Ha).
+Qed.
+
+Lemma sg_cook_results : forall rs c,
+  cook_results rs = inr c <->
+  sig_accepted rs /\ ck_nils c = (declared_arity rs - 1)%nat /\
+  ck_result c = match sig_result rs with Some rr => rr | None => ("", false) end.
+Proof. intros rs c. unfold cook_results. rewrite declared_arity_values. apply cook_values_accepts. Qed.
+
+Lemma sg_refines_spec : forall bv rs o,
+  wf_results rs = true -> sig_accepted rs -> scenario_ok bv o = true ->
+  method_returns decode bv rs o
+  = inr (Some (spec_returns V X decode (values rs) o, spec_events X (values rs) o)).
+Proof.
+  intros bv rs o Hwf Ha Hsc. rewrite method_returns_values. rewrite <- wf_values in Hwf.
+  exact (method_values_refines_spec V X decode bv (values rs) o Hwf Ha Hsc).
+Qed.
+
+Lemma sg_view : forall bv rs o slots ev,
+  wf_results rs = true -> method_returns decode bv rs o = inr (Some (slots, ev)) ->
+  exists rv, view slots = Some rv /\ (rv_result rv = None <-> sig_result rs = None).
+Proof. intros bv rs o slots ev Hwf H. to_values H. eapply mr_view; eauto. Qed.
+
+Lemma sg_nil_error_iff : forall bv rs o slots ev rv,
+  wf_results rs = true -> method_returns decode bv rs o = inr (Some (slots, ev)) -> view slots = Some rv ->
+  (rv_err rv = SNil <->
+   exists r, o = OResp r /\ 200 <= r_status r < 300 /\
+     match sig_result rs with
+     | None => True
+     | Some (ty, _) => forall x, snd (decode ty (r_body r)) <> Some (DOther x)
+     end).
+Proof.
+  intros bv rs o slots ev rv Hwf H Hv. to_values H. eapply mr_nil_error_iff; eauto.
+Qed.
+
+Lemma sg_client_error : forall bv rs r slots ev rv,
+  wf_results rs = true -> method_returns decode bv rs (OResp r) = inr (Some (slots, ev)) -> view slots = Some rv ->
+  400 <= r_status r < 500 ->
+  rv_err rv = SErr (EText ("client error " ++ dec (r_status r) ++ ": " ++ b_data (r_body r))) /\
+  rv_resp rv = SResp r /\ (rv_result rv = None \/ rv_result rv = Some SNil).
+Proof.
+  intros bv rs r slots ev rv Hwf H Hv Hs. to_values H. eapply mr_client_error; eauto.
+Qed.
+
+Lemma sg_server_error : forall bv rs r slots ev rv,
+  wf_results rs = true -> method_returns decode bv rs (OResp r) = inr (Some (slots, ev)) -> view slots = Some rv ->
+  500 <= r_status r ->
+  rv_err rv = SErr (EText ("server error " ++ dec (r_status r) ++ ": " ++ b_data (r_body r))) /\
+  rv_resp rv = SResp r /\ (rv_result rv = None \/ rv_result rv = Some SNil).
+Proof.
+  intros bv rs r slots ev rv Hwf H Hv Hs. to_values H. eapply mr_server_error; eauto.
+Qed.
+
+Lemma sg_unsupported : forall bv rs r slots ev rv,
+  wf_results rs = true -> method_returns decode bv rs (OResp r) = inr (Some (slots, ev)) -> view slots = Some rv ->
+  r_status r < 200 \/ 300 <= r_status r < 400 ->
+  rv_err rv = SErr (EText ("not supported error " ++ dec (r_status r))) /\
+  rv_resp rv = SResp r /\ (rv_result rv = None \/ rv_result rv = Some SNil).
+Proof.
+  intros bv rs r slots ev rv Hwf H Hv Hs. to_values H. eapply mr_unsupported; eauto.
+Qed.
+
+Lemma sg_failure : forall bv rs st x slots ev,
+  wf_results rs = true -> method_returns decode bv rs (OFail st x) = inr (Some (slots, ev)) ->
+  slots = (repeat SNil (declared_arity rs - 1) ++ [SErr (EForeign x)])%list /\ ev = [] /\
+  forall rv, view slots = Some rv ->
+    rv_err rv = SErr (EForeign x) /\ rv_resp rv = SNil /\ (rv_result rv = None \/ rv_result rv = Some SNil).
+Proof.
+  intros bv rs st x slots ev Hwf H. to_values H. rewrite declared_arity_values.
+  eapply mr_failure; eauto.
+Qed.
+
+Lemma sg_response_always : forall bv rs r slots ev rv,
+  wf_results rs = true -> method_returns decode bv rs (OResp r) = inr (Some (slots, ev)) -> view slots = Some rv ->
+  rv_resp rv = SResp r.
+Proof.
+  intros bv rs r slots ev rv Hwf H Hv. to_values H. eapply mr_response_always; eauto.
+Qed.
+
+Lemma sg_error_nil_result : forall bv rs o slots ev rv,
+  wf_results rs = true -> method_returns decode bv rs o = inr (Some (slots, ev)) -> view slots = Some rv ->
+  rv_err rv <> SNil -> rv_result rv = None \/ rv_result rv = Some SNil.
+Proof.
+  intros bv rs o slots ev rv Hwf H Hv Hne. to_values H. eapply mr_error_nil_result; eauto.
+Qed.
+
+Lemma sg_success : forall bv rs r ty p v de slots ev,
+  wf_results rs = true -> method_returns decode bv rs (OResp r) = inr (Some (slots, ev)) ->
+  200 <= r_status r < 300 -> sig_result rs = Some (ty, p) ->
+  decode ty (r_body r) = (v, de) -> (forall x, de <> Some (DOther x)) ->
+  slots = [if p then SAddr v else SVal v; SResp r; SNil].
+Proof.
+  intros bv rs r ty p v de slots ev Hwf H Hs Hd Hdec Hok. to_values H.
+  eapply mr_success; eauto.
+Qed.
+
+Lemma sg_success_no_result : forall bv rs r slots ev,
+  wf_results rs = true -> method_returns decode bv rs (OResp r) = inr (Some (slots, ev)) ->
+  200 <= r_status r < 300 -> sig_result rs = None ->
+  slots = [SResp r; SNil].
+Proof.
+  intros bv rs r slots ev Hwf H Hs Hd. to_values H. eapply mr_success_no_result; eauto.
+Qed.
+
+Lemma sg_empty_body : forall (zero : string -> V) bv rs r ty p slots ev,
+  (forall t, decode t {| b_data := ""; b_fault := None |} = (zero t, Some DEof)) ->
+  wf_results rs = true -> method_returns decode bv rs (OResp r) = inr (Some (slots, ev)) ->
+  200 <= r_status r < 300 -> sig_result rs = Some (ty, p) ->
+  r_body r = {| b_data := ""; b_fault := None |} ->
+  slots = [if p then SAddr (zero ty) else SVal (zero ty); SResp r; SNil].
+Proof.
+  intros zero bv rs r ty p slots ev Hlaw Hwf H Hs Hd Hb. to_values H.
+  eapply mr_empty_body; eauto.
+Qed.
+
+Lemma sg_decode_error : forall bv rs r ty p v x slots ev,
+  wf_results rs = true -> method_returns decode bv rs (OResp r) = inr (Some (slots, ev)) ->
+  200 <= r_status r < 300 -> sig_result rs = Some (ty, p) ->
+  decode ty (r_body r) = (v, Some (DOther x)) ->
+  slots = [SNil; SResp r; SErr (EForeign x)].
+Proof.
+  intros bv rs r ty p v x slots ev Hwf H Hs Hd Hdec. to_values H.
+  eapply mr_decode_error; eauto.
+Qed.
+
+(* the method returns exactly as many values as its signature declares: no guard *)
+Lemma sg_arity : forall bv rs o slots ev,
+  wf_results rs = true -> method_returns decode bv rs o = inr (Some (slots, ev)) ->
+  List.length slots = declared_arity rs.
+Proof.
+  intros bv rs o slots ev Hwf H. to_values H. rewrite declared_arity_values.
+  eapply mr_arity; eauto.
+Qed.
+
+Lemma sg_body_closed_once : forall bv rs r slots ev,
+  wf_results rs = true -> method_returns decode bv rs (OResp r) = inr (Some (slots, ev)) ->
+  exists pre, ev = (pre ++ [BClose])%list /\ ~ In BClose pre.
+Proof.
+  intros bv rs r slots ev Hwf H. to_values H. eapply mr_body_closed_once; eauto.
+Qed.
+
+End Signature.
+
+(* nil is a value of every accepted result type: no guard *)
+Lemma sg_nilable : forall rs, sig_accepted rs -> result_type_nilable (values rs) = true.
+Proof. intros rs H. apply accepted_nilable; assumption. Qed.
+
+(* ------------------------------------------------------------------ *)
+(* the two repaired defects (K_rest_array_result, K_rest_multi_name_result): *)
+(* what the code does now with their witnesses                          *)
 
 Definition resp_field : field := {| f_names := []; f_type := TStar (TSel "http" "Response") |}.
 Definition err_field : field := {| f_names := []; f_type := TIdent "error" |}.
 
-(* K_rest_array_result: ([2]int, *http.Response, error) *)
 Definition array_witness : list field :=
   [{| f_names := []; f_type := TArray (Some "2") (TIdent "int") |}; resp_field; err_field].
 
-Lemma array_result_refuted :
-  exists rs c, wf_results rs = true /\ single_names rs = true /\ cook_results rs = inr c /\
-               result_type_nilable rs = false.
-Proof. exists array_witness. eexists. repeat split; reflexivity. Qed.
+Lemma array_result_refused : cook_results array_witness = inl (FArray "[2]int").
+Proof. reflexivity. Qed.
 
-(* K_rest_multi_name_result: (a, b *http.Response, err error) -- two FIELDS, three values *)
+(* `(a, b *http.Response, err error)`: two fields, three values, the first one named *)
 Definition multi_name_witness : list field :=
   [{| f_names := ["a"; "b"]; f_type := TStar (TSel "http" "Response") |};
    {| f_names := ["err"]; f_type := TIdent "error" |}].
 
-Lemma multi_name_refuted : forall V X (decode : string -> body X -> dec_out V X) bv o,
-  scenario_ok bv o = true ->
-  exists rs slots ev, wf_results rs = true /\ method_returns decode bv rs o = inr (Some (slots, ev)) /\
-                      List.length slots <> declared_arity rs.
-Proof.
-  intros V X decode bv o Hsc. exists multi_name_witness.
-  destruct o as [st x|r].
-  - destruct st, bv; try discriminate Hsc;
-      (eexists; eexists; split; [reflexivity|]; split; [reflexivity|]; simpl; discriminate).
-  - unfold method_returns; cbn -[classify].
-    destruct bv; cbn -[classify]; destruct (classify (r_status r) (r_body r)) as [[e|] ev]; cbn;
-      (eexists; eexists; split; [reflexivity|]; split; [reflexivity|]; simpl; discriminate).
-Qed.
+Lemma multi_name_refused :
+  declared_arity multi_name_witness = 3%nat /\ cook_results multi_name_witness = inl FNamed.
+Proof. split; reflexivity. Qed.
